@@ -21,4 +21,13 @@ def hWalk (j : Json) : Except String Json := do
     return jobj (base ++ verdictJ "spec_i" (specWalk snap target io))
   | _ => return jobj base
 
+def hSubWalk (j : Json) : Except String Json := do
+  let dirs ← (← getArr j "dirs").toList.mapM fun d => do
+    let root ← parseStat ((d.getObjVal? "root").toOption.getD .null)
+    let snap ← (← getArr d "snap").toList.mapM parseSnap
+    pure (root, snap)
+  let m := subDirWalk dirs
+  let paths := m.map (·.path)
+  return jobj [("m", Json.arr (m.map statJ).toArray), ("ascending", toJson (ascendingC paths))]
+
 end Drv
